@@ -39,6 +39,9 @@ def generate(rnd, tier):
         cases.append({"op": "text", "text": t, "w": w})
         if rnd.random() < 0.3:
             cases.append({"op": "wrap", "text": t.replace("\n", " "), "w": max(1, w)})
+        if rnd.random() < 0.25:
+            # the same widget object rendered at a sequence of widths (narrower, wider, again)
+            cases.append({"op": "textseq", "text": t, "widths": [max(1, w), rnd.randint(1, 120), max(1, w), rnd.randint(1, 12)]})
     return [with_cc(c) for c in cases]
 
 
@@ -69,6 +72,12 @@ def simple_greedy(line, w):
 
 
 def monitor(case, obs):
+    if case["op"] == "textseq":
+        # every render of the same object must satisfy the property for its own width
+        for w, o in zip(case["widths"], obs):
+            v = monitor({"op": "text", "text": case["text"], "w": w}, o)
+            if v: return "rendered at widths %r in turn, at width %d: %s" % (case["widths"], w, v)
+        return None
     if case["op"] != "text":
         return None
     t, w = case["text"], case["w"]
@@ -113,16 +122,23 @@ def monitor(case, obs):
 
 
 def nontrivial(case, obs):
+    if case["op"] == "textseq": return True
     return "err" in obs or len(obs.get("lines", [])) >= 2
 
 
 def outcome(case, obs):
+    if case["op"] == "textseq": return "sequence"
     if "err" in obs: return "refused"
     n = len(obs["lines"])
     return "wrap-only" if case["op"] == "wrap" else ("0 lines" if n == 0 else "1 line" if n == 1 else "2-5 lines" if n <= 5 else ">5 lines")
 
 
 def shrink(case):
+    if case["op"] == "textseq":
+        for s in shrink_string(case["text"]): yield with_cc({**{k: v for k, v in case.items() if k != "cc"}, "text": s})
+        for i in range(len(case["widths"])):
+            if len(case["widths"]) > 1: yield with_cc({**{k: v for k, v in case.items() if k != "cc"}, "widths": case["widths"][:i] + case["widths"][i + 1:]})
+        return
     for s in shrink_string(case["text"]):
         yield with_cc({**{k: v for k, v in case.items() if k != "cc"}, "text": s})
     if case["w"] > 1:
